@@ -92,6 +92,7 @@ func opsOf(s ...string) []C16Op {
 }
 
 type c16Plugin struct {
+	gate    func(name string) // scheduler gate: handlers take a scheduler-chosen while
 	mu      stdsync.Mutex
 	cfg     int
 	synced  int
@@ -101,7 +102,11 @@ type c16Plugin struct {
 func (p *c16Plugin) Configure(ctx context.Context, config, runtime, version string) (api.EventMask, error) {
 	p.mu.Lock()
 	p.cfg++
+	n := p.cfg
 	p.mu.Unlock()
+	if p.gate != nil {
+		p.gate(fmt.Sprintf("Configure:%d", n))
+	}
 	return 0, nil
 }
 func (p *c16Plugin) Synchronize(ctx context.Context, pods []*api.PodSandbox, ctrs []*api.Container) ([]*api.ContainerUpdate, error) {
@@ -196,6 +201,7 @@ func c16Exec(t *testing.T, w *C16W, sc SchedCfg, ph *c16Phases, rec *c16Phases) 
 			return "healthy"
 		}
 		plug := &c16Plugin{markers: map[string]int{}}
+		plug.gate = func(name string) { e.S.ParkOwned("gate:p16:"+name, "plug:p16", nil) }
 		closes := 0
 		var cmu stdsync.Mutex
 		dial := func(p string) (c stdnet.Conn, err error) {
